@@ -154,6 +154,11 @@ class C01(Check):
         sp = [Space(f"chains K<={K}", {"K": K, "modes": ["call", "str", "ast"], "datasets": ["untyped", "typed"],
                                        "terminals": [None, "AsAwkwardArray", "AsROOTTTree"]}, cases, runner="run_chain"),
               Space("branching", {"shape": "parent + two children, all executed"}, branch_cases, runner="run_branch")]
+        nmax = 4 if Q else 5
+        sp.append(Space(f"enumerated-bodies<={nmax}", {"grammar": "E1 full grammar (method forms) over the event parameter",
+                                                       "size": nmax, "names": "every admissible naming from {e, j}",
+                                                       "modes": ["call", "str", "ast"]},
+                        (lambda nmax=nmax: enumerated(nmax)), runner="run_chain"))
         if not Q:
             sp.append(Space("chains K=3", {"K": 3, "menu": "first 6 bodies per kind after stage 1", "mode": "call"},
                             (lambda: [("call", t, None, st) for st in chains(3, menu_cut=6) if len(st) == 3
@@ -278,6 +283,12 @@ class C01(Check):
                 s = self._terminal(self._build(mode, ds, stages, g), term)
                 s.value()
             except Exception as e:
+                if isinstance(e, ValueError) and any(
+                        op == "Where" and not isinstance(ast.parse(b, mode="eval").body, (ast.Compare, ast.BoolOp))
+                        for op, b in stages):
+                    # designed refusal (C10): a Where filter that is not syntactically a comparison / boolean combination
+                    res["oc"].append("where-filter-of-unknown-type-refused")
+                    return res
                 res["oc"].append("raised")
                 res["viol"].append({"kind": f"build-raised:{type(e).__name__}", "canon": canon, "msg": str(e)[:200]})
                 return res
@@ -320,6 +331,30 @@ class C01(Check):
 
     def render(self, space_name, payload):
         return repr(payload)
+
+
+def enumerated(nmax):
+    g = T.Grammar(prods=T.FULL - S("appkw".split()) | S(["app2"]), forms=("m",), count_forms=("m", "len"), pkg_depth=1)
+    out = []
+    seen = set()
+    for n in range(2, nmax + 1):
+        for t, x in g.gen((T.EV,), n):
+            if T.has(x, {"ds"}) or not T.has(x, {"var"}):
+                continue
+            for nm in T.namings(x, ("e", "j"), ("e",)):
+                body = T.render(x, nm, ("e",))
+                if body in seen:
+                    continue
+                seen.add(body)
+                ops = ["Select"]
+                if t == T.BOOL:
+                    ops.append("Where")
+                if isinstance(t, tuple) and t[0] == "Seq":
+                    ops.append("SelectMany")
+                for op in ops:
+                    for mode in ("call", "str", "ast"):
+                        out.append((mode, False, None, ((op, body),)))
+    return out
 
 
 CHECK = C01()
